@@ -86,6 +86,11 @@ def r1_evidence(ctx, f, rep, eff):
                     isa['args'][1][5] == (('ref', ('local', 0, 2), False),)
                 if src_ok and clo_ok:
                     tgt = q.cond_truth(c)
+            if c['expr'][0] == 'call' and calls[c['expr'][1]]['res'] == 'probe::Probe::is_probing':
+                # the same test through the helper (whose body is checked by common.check_helpers)
+                ip = calls[c['expr'][1]]
+                if q.is_param(ip['args'][0], 1) and q.is_param(ip['args'][1], 2):
+                    tgt = q.cond_truth(c)
         n += 1
         if ws:
             rep.check(num is True and tgt is True and ws[0]['value'] == ('const', 'bool', 1, 'true') and
@@ -140,20 +145,49 @@ def r1_evidence(ctx, f, rep, eff):
                   'C12-R1', b.nname, 'clear() resets the evidence and the asked helpers but not the probe number',
                   construct='clear')
     b = f.fn('probe::Probe::succeeded')
-    tab = []
-    for p in ctx.paths(f, b, 'none'):
-        conds = [(show(c['expr'], b), q.cond_truth(c)) for c in p.conds()]
-        tab.append((conds, p.ret))
-    good = len(tab) == 2
-    for conds, r in tab:
-        if conds == [('self.direct_ack_ok', True)]:
-            good = good and r == ('const', 'bool', 1, 'true')
-        elif conds == [('self.direct_ack_ok', False)]:
-            good = good and r[0] == 'binop' and r[1] == 'Gt' and r[2] == ('load', pf('indirect_ack_count'), 0) and r[3][2] == 0
-        else:
-            good = False
-    rep.check(good, 'C12-R1', b.nname, 'succeeded() = direct_ack_ok || indirect_ack_count > 0', construct='succeeded-table',
-              facts={'table': [(c, show(r, b)) for c, r in tab]})
+    # truth table over D = direct_ack_ok and I = (indirect_ack_count > 0), whatever the spelling (`a || b`, if/else,
+    # `count > 0`, `0 < count`, `count != 0` ...)
+    is_cnt = lambda v: v == ('load', pf('indirect_ack_count'), 0)
+
+    def ev_bool(v, D, I):
+        if v[0] == 'const' and v[1] == 'bool':
+            return bool(v[2])
+        if v == ('load', pf('direct_ack_ok'), 0):
+            return D
+        if v[0] == 'unop' and v[1] == 'Not':
+            x = ev_bool(v[2], D, I)
+            return None if x is None else (not x)
+        if v[0] == 'binop' and v[1] in ('BitOr', 'BitAnd'):
+            x, y = ev_bool(v[2], D, I), ev_bool(v[3], D, I)
+            if x is None or y is None:
+                return None
+            return (x or y) if v[1] == 'BitOr' else (x and y)
+        z = q.zero_test({'kind': 'cond', 'expr': v, 'taken': '1', 'dty': 'bool'}, is_cnt)
+        if z == 'pos':
+            return I
+        if z == 'zero':
+            return not I
+        return None
+    covered = set()
+    good = True
+    paths = [p for p in ctx.paths(f, b, 'none') if p.end == 'return']
+    for p in paths:
+        for D in (False, True):
+            for I in (False, True):
+                feas = True
+                for c in p.conds():
+                    x = ev_bool(c['expr'], D, I)
+                    if x is None:
+                        good = False
+                    elif x != q.cond_truth(c):
+                        feas = False
+                if not feas:
+                    continue
+                covered.add((D, I))
+                good = good and ev_bool(p.ret, D, I) == (D or I)
+    good = good and len(covered) == 4 and not any(p.writes() or p.calls() for p in paths)
+    rep.check(good, 'C12-R1', b.nname, 'succeeded() = direct_ack_ok || indirect_ack_count > 0 (truth table over the two atoms)',
+              construct='succeeded-table', facts={'covered': sorted(covered)})
     b = f.fn('probe::Probe::take_failed')
     for p in ctx.paths(f, b, 'none'):
         calls = {c['id']: c for c in p.calls()}
